@@ -298,3 +298,23 @@ def gen_set_ops(rng, rates, n_ops, allow_update=False):
             lines.append("at %d update %s" % (t, fmt_rates(pick_rates(rng))))
             lines.append("maxperiod")
     return lines
+
+
+PEER_IPS = ["10.0.0.1", "10.0.0.2", "2001:db8::1", "2001:db8::2", "fe80::1%eth0", "fe80::1%eth1", "::1", "::ffff:10.0.0.1"]
+
+
+def clientip_sources(rng, n):
+    """n peers for `cfg rate … ext=clientip`: each one address text, with a port (brackets for IPv6) or bare, fixed for the scenario"""
+    out = []
+    for ip in rng.sample(PEER_IPS, n):
+        if rng.random() < 0.3:
+            out.append(ip)
+        else:
+            port = rng.choice([80, 4000, 65535])
+            out.append("[%s]:%d" % (ip, port) if ":" in ip else "%s:%d" % (ip, port))
+    return out
+
+
+def amount_one(lines):
+    """the stock extractors always yield amount 1"""
+    return [" ".join(l.split()[:4] + ["1"] + l.split()[5:]) if l.split()[2:3] == ["req"] else l for l in lines]
